@@ -82,6 +82,11 @@ func observe(oc *fw.Outcome, e *Exec, count bool) (o obs, fs []finding, program 
 	}
 	switch o.class {
 	case "panic":
+		// a panic inside the implementation of one built-in function is keyed by that function whatever
+		// family reached it (F2 directly, F7 with request data, F8 through the tester): one key per root cause
+		if fn := builtinOfFrame(fw.TopFalcoFrame(o.stack)); fn != "" && e.Fam != "F2" {
+			e.Con = "fn:" + fn
+		}
 		fs = append(fs, finding{fw.PanicKey(o.stack) + "/", fmt.Sprintf("%s panicked: %s\nprogram:\n%s\n%s", modeName(e.Mode), o.msg, clip(program, 1500), topFrames(o.stack, 8))})
 	case "steps":
 		fs = append(fs, finding{"steps:", fmt.Sprintf("%s executed more than %d statements for one request\nprogram:\n%s", modeName(e.Mode), stepBudget, clip(program, 1500))})
@@ -216,6 +221,30 @@ func topFrames(st string, n int) string {
 		out = append(out, "  at "+strings.TrimPrefix(fn, "github.com/ysugimoto/falco/v2/")+" ("+strings.TrimPrefix(loc, "/repo/")+")")
 	}
 	return strings.Join(out, "\n")
+}
+
+var builtinByGoName map[string]string
+
+// builtinOfFrame maps "interpreter/function/builtin.Std_strpad" to "std.strpad" using the names of
+// __generator__/builtin.yml ("" when the frame is not the implementation of a built-in function).
+func builtinOfFrame(frame string) string {
+	const pfx = "interpreter/function/builtin."
+	if !strings.HasPrefix(frame, pfx) {
+		return ""
+	}
+	if builtinByGoName == nil {
+		builtinByGoName = map[string]string{}
+		if fns, err := loadBuiltins(fw.Repo); err == nil {
+			for n := range fns {
+				builtinByGoName[strings.ToLower(strings.ReplaceAll(n, ".", "_"))] = n
+			}
+		}
+	}
+	g := strings.ToLower(strings.TrimPrefix(frame, pfx))
+	if i := strings.IndexAny(g, ".("); i > 0 {
+		g = g[:i]
+	}
+	return builtinByGoName[g]
 }
 
 // ---- process-fatal attribution --------------------------------------------------------------------
